@@ -221,7 +221,7 @@ pub fn run(ctx: &Ctx) -> CheckResult {
         if g.is_empty() {
             return;
         }
-        let mut vs = enumerate_faults(0, &g[0], &FaultSpace { read_side: true, write_side: false, budgets: Budgets::Boundaries, seed: 0 });
+        let mut vs = enumerate_faults(0, &g[0], &FaultSpace { read_side: true, write_side: false, meta_side: true, budgets: Budgets::Boundaries, seed: 0 });
         vs.extend(noise_variants(0, true, false));
         if quick {
             vs = thin(&vs, 40, rng::mix(w.ctx.seed, &base.name, 5));
